@@ -41,7 +41,8 @@ Definition put_info (f : gbfeat) (k v : list N) : option gbfeat :=
 Definition new_feat (line : list N) : gbfeat :=
   match fields_go line [] with f0 :: f1 :: _ => {| gf_key := f0; gf_loc := f1; gf_info := Some [] |} | _ => zero_feat end.
 
-Definition gb_step (s : gbst) (line : list N) : res gbst :=
+(* cont = true: the code as it is now (repair D23); false: before it, a continued location line was dropped *)
+Definition gb_step_gen (cont : bool) (s : gbst) (line : list N) : res gbst :=
   let nf := is_feature_line line (st_closed s) in
   let n' := S (st_line s) in
   if nf && Nat.eqb (st_line s) 0 then
@@ -67,16 +68,27 @@ Definition gb_step (s : gbst) (line : list N) : res gbst :=
         | None => Panic
         | Some f => Ok {| st_closed := true; st_cur := new_feat line; st_key := []; st_val := []; st_done := st_done s ++ [f]; st_line := n' |}
         end
-      else Ok {| st_closed := st_closed s; st_cur := st_cur s; st_key := st_key s; st_val := st_val s; st_done := st_done s; st_line := n' |}
+      else match gf_info (st_cur s), st_key s with
+           | Some m, [] =>                                                   (* a location continued on the next line *)
+               if negb cont then Ok {| st_closed := st_closed s; st_cur := st_cur s; st_key := st_key s; st_val := st_val s; st_done := st_done s; st_line := n' |} else
+               Ok {| st_closed := st_closed s;
+                     st_cur := {| gf_key := gf_key (st_cur s); gf_loc := gf_loc (st_cur s) ++ c0 :: rest; gf_info := Some m |};
+                     st_key := st_key s; st_val := st_val s; st_done := st_done s; st_line := n' |}
+           | _, _ => Ok {| st_closed := st_closed s; st_cur := st_cur s; st_key := st_key s; st_val := st_val s; st_done := st_done s; st_line := n' |}
+           end
   end.
-Fixpoint gb_fold (s : gbst) (lines : list (list N)) : res gbst :=
-  match lines with [] => Ok s | l :: t => bind (gb_step s l) (fun s' => gb_fold s' t) end.
-Definition parse_features (lines : list (list N)) : res (list gbfeat) :=
-  bind (gb_fold gb_init lines) (fun s =>
+Notation gb_step := (gb_step_gen true).
+Fixpoint gb_fold_gen (cont : bool) (s : gbst) (lines : list (list N)) : res gbst :=
+  match lines with [] => Ok s | l :: t => bind (gb_step_gen cont s l) (fun s' => gb_fold_gen cont s' t) end.
+Notation gb_fold := (gb_fold_gen true).
+Definition parse_features_gen (cont : bool) (lines : list (list N)) : res (list gbfeat) :=
+  bind (gb_fold_gen cont gb_init lines) (fun s =>
     match st_key s, st_val s with
     | _ :: _, _ :: _ => match put_info (st_cur s) (st_key s) (st_val s) with None => Panic | Some f => Ok (st_done s ++ [f]) end
     | _, _ => Ok (st_done s ++ [st_cur s])
     end).
+Notation parse_features := (parse_features_gen true).
+Notation parse_features_old := (parse_features_gen false).
 (* the qualifier a consumer reads: the LAST entry with that key *)
 Fixpoint info_get (k : list N) (m : list (list N * list N)) : option (list N) :=
   match m with [] => None | (k', v) :: t => match info_get k t with Some r => Some r | None => if list_eqb k k' then Some v else None end end.
